@@ -422,7 +422,8 @@ class Reduce(Contract):
 
 
 def contracts():
-    return [AssembleCSR(), AssembleCOO(), Diagonal(), Constructor('diag'), Constructor('empty'), RowSupp('default'), RowSupp('given'), Reduce()]
+    from contracts import blockcsr
+    return [AssembleCSR(), AssembleCOO(), Diagonal(), Constructor('diag'), Constructor('empty'), RowSupp('default'), RowSupp('given'), Reduce()] + blockcsr.contracts()
 
 
 TRUSTED = ['pyvc symbolic executor and its Python model (DESIGN 2.3)',
